@@ -36,6 +36,8 @@ def table(pid, module, pkg, what, ref):
 
 CHECKS = {
  'C02': table('C02', 'Wire', 'wirefam', 'JSON-RPC conformance and survival on arbitrary inbound records: the verdict function of spec/Wire.tla (a transcription of the property statement, not of the Go code) is evaluated by TLC over all 15400 combinations of per-field variants; each cell is sent as a single object, inside arrays and in random batches to a real Server (AllowPush off and on) inside a synctest bubble; handler invocations and output records at quiescence are compared with the allowed outcome set, outputs are validated by an independent JSON-RPC response validator, and a liveness probe follows. Seeded mutations beyond the bound use the survival / valid-output oracle.', 'DESIGN.md §4 C02'),
+ 'C14': table('C14', 'Errors', 'errfam', 'Error classification from handler to caller: ErrorCode / ToWire / FromWire of spec/Errors.tla are evaluated by TLC over every error tree up to the bound (and the round-trip theorem is checked on the reference itself); each tree is built from the real constructors, returned by a real handler and observed through Call, CallResult, Batch and a server Callback: equal ErrorCode on both sides, exact context sentinels, *Error code/message/data unchanged (JSON-equal); all listed and seeded int32 codes; WithData receivers; unmarshalable results become error responses.', 'DESIGN.md §4 C14'),
+ 'C17': table('C17', 'Dispatch', 'dispfam', 'Method dispatch: Target(mux, builtin, name) of spec/Dispatch.tla (Map = whole name, ServiceMap = first-dot split, reserved rpc.* gate before the assigner) evaluated by TLC for every name up to the bound x mux shapes x DisableBuiltin; each name called and notified on a real Server built from the exported mux description; compared: handler identity, what handler and assigner saw (InboundRequest, ServerFromContext), answers, Names() sorted, rpc.serverInfo.', 'DESIGN.md §4 C17'),
  'C11': table('C11', 'Framing', 'framefam', 'Framing round trip under any fragmentation: record class sequences (legality per framing from the spec) are sent with the real Send and received through a chunk-controlled reader under all cut sets (short streams), 1-byte reads, boundary cuts, random cuts and data-together-with-EOF; Recv must return exactly the records and then io.EOF; a record containing the split byte must be refused with nothing written.', 'DESIGN.md §4 C11'),
  'C12': table('C12', 'Framing', 'framefam', 'Framing robustness: the symbol-level reference decoders of spec/Framing.tla (Split and the Header family under strict / optional / empty mime type) are evaluated by TLC over every token stream up to the bound; each stream is decoded by the real Recv under many fragmentations and the outcome sequence (records byte for byte, errors, keeps-failing-after-exhaustion) compared; absurd Content-Length values and seeded byte mutations are checked for no-crash / no-short-record / no-fabrication.', 'DESIGN.md §4 C12'),
  'C01': server('C01', 'Exactly one correlated response per call, none per notification, batch shape/order, nothing for nothing-to-report.', 'DESIGN.md §4 C01'),
